@@ -26,6 +26,8 @@ struct VT {
     uint64_t deadline = NO_DEADLINE;
     bool timed_out = false;
     bool detached = false;
+    uint64_t stamp = 0;          // when the thread last received the baton (fair yield)
+    int idle_yields = 0;         // consecutive yields during which nobody else could run
     std::function<void()> fn;
     pthread_t os{};
     bool os_joinable = false;
@@ -73,8 +75,12 @@ inline void mix(uint64_t v) {
     S.trace_hash = (S.trace_hash ^ v) * 0x100000001b3ULL + 0x9e3779b97f4a7c15ULL;
 }
 
+uint64_t g_stamp = 0;
+
 void switch_to(int me, int tgt) {
     mix((uint64_t)tgt * 131 + 7);
+    T[tgt]->stamp = ++g_stamp;
+    T[me]->idle_yields = 0;
     cur = tgt;
     unpark(T[tgt]);
     park(T[me]);
@@ -143,6 +149,7 @@ void finish(int me) {
     int tgt = choose_next();
     if (tgt < 0) return;        // everything finished (main never finishes this way)
     mix((uint64_t)tgt * 131 + 11);
+    T[tgt]->stamp = ++g_stamp;
     cur = tgt;
     unpark(T[tgt]);
 }
@@ -171,7 +178,7 @@ void init(const uint8_t *sched, size_t slen, const uint8_t *faults, size_t flen,
     g_sched = sched; g_slen = slen; g_spos = 0;
     g_faults = faults; g_flen = flen; g_fpos = 0;
     g_max_points = max_points;
-    g_time = 0;
+    g_time = 0; g_stamp = 0;
     S = Stats();
     NT = 0;
     VT *t = new VT;
@@ -212,27 +219,34 @@ void point(int kind, const void *obj) {
     switch_to(me, tgt);
 }
 
+// forced, FAIR switch for harness polling loops: the other runnable thread that has not
+// run for the longest time continues (no schedule byte is consumed, so a poller can never
+// starve the thread it waits for).  If nobody else can run the poller re-checks its
+// condition once; a second consecutive idle yield proves that it can never be satisfied.
 void yield() {
     if (!live()) return;
     int me = tl_self;
     if (++S.points > g_max_points)
         die(EXIT_LIVELOCK, "no progress: more than %llu scheduling points", (unsigned long long)g_max_points);
-    int r[MAXT], k = 0;
-    for (int i = 0; i < NT; i++) if (i != me && T[i]->st == S_RUN) r[k++] = i;
-    if (!k) {
+    int tgt = -1;
+    for (int i = 0; i < NT; i++)
+        if (i != me && T[i]->st == S_RUN && (tgt < 0 || T[i]->stamp < T[tgt]->stamp)) tgt = i;
+    if (tgt < 0) {
         // nobody else can run: if somebody waits for a deadline, let time pass
         uint64_t dl = NO_DEADLINE;
         for (int i = 0; i < NT; i++) if (T[i]->st == S_BLK && T[i]->deadline < dl) dl = T[i]->deadline;
         if (dl == NO_DEADLINE) {
-            char buf[400]; buf[0] = 0; describe_blocked(buf, sizeof buf);
-            die(EXIT_DEADLOCK, "deadlock: polling thread T%d can never be satisfied, blocked:%s", me, buf);
+            if (++T[me]->idle_yields >= 2) {
+                char buf[400]; buf[0] = 0; describe_blocked(buf, sizeof buf);
+                die(EXIT_DEADLOCK, "deadlock: polling thread T%d can never be satisfied, blocked:%s", me, buf);
+            }
+            return;
         }
         if (dl > g_time) g_time = dl;
         S.time_jumps++;
         for (int i = 0; i < NT; i++)
-            if (T[i]->st == S_BLK && T[i]->deadline <= g_time) { make_runnable(T[i], true); r[k++] = i; }
+            if (T[i]->st == S_BLK && T[i]->deadline <= g_time) { make_runnable(T[i], true); if (tgt < 0) tgt = i; }
     }
-    int tgt = k == 1 ? r[0] : r[next_byte(k) % k];
     switch_to(me, tgt);
 }
 
